@@ -152,7 +152,7 @@ theorem replicate_snoc_prefix {α : Type} (x : α) (m n : Nat) (rest : List α) 
 
 /-- suffix-aware host stems of a whole-label subdomain with the same suffix: `Lu`, `pre.Lu` the
 lower-cased hostnames, which the stems spell (`SplitLaw`) — trailing dots and a lone leading dot
-included (the empty labels are stems since FX-C12-EMPTYLABELS) -/
+included (the empty labels are stems since FX-C12-ed8ae90) -/
 theorem splitStems_prefix {du dv s pre Lu : Str} (h0 : Str) (h1 : Str)
     (hu : rejoinHost Lu du s = Lu)
     (hv : rejoinHost (pre ++ '.' :: Lu) dv s = pre ++ '.' :: Lu) :
